@@ -51,6 +51,8 @@ fn prepare(root: &Path, state: &str) -> Result<(), String> {
         "typed" => { d("x"); w("x.toml", TOML_TYPED); }
         "invalid" => { d("x"); d("x/data"); w("x/data/file", "f"); w("x.toml", TOML_INVALID); }
         "broken" => { d("x"); w("x.toml", TOML_BROKEN); }
+        // restored by an older buildpack version: decodes as `V`, with a value the data-dependent callbacks reject
+        "stale" => { d("x"); w("x.toml", "[metadata]\nv = 7\n"); d("x/env"); w("x/env/FOO.append", "a"); d("x/bin"); w("x/bin/tool", "t"); }
         "full" => {
             d("x"); w("x.toml", TOML_RESTORED);
             d("x/env"); w("x/env/FOO.append", "a");
@@ -145,7 +147,27 @@ fn cached(ctx: &BuildContext<TestBuildpack>, name: &LayerName, restored: &str, i
     })
 }
 
-struct TraitLayer { strategy: ExistingLayerStrategy, migration: &'static str, prog: PathBuf, multi: bool }
+/// `cached-migrate`: both callbacks LOOK at what libcnb read from disk (mirrored by `migrateInv` / `restoredByMeta` in
+/// Model/FsProgOps.lean). `invalid_metadata_action` is a real migration: the old format `{ w = <int> }` becomes `V { v: w + 10 }`;
+/// when there is nothing to migrate from (no metadata, no integer `w`) the layer is deleted. `restored_layer_action` keeps the
+/// current value (1) and migrated ones (> 10) and deletes anything else. A read whose failure is presented to a callback as
+/// "no data" therefore changes the outcome of the call instead of vanishing behind a constant answer.
+fn cached_migrate(ctx: &BuildContext<TestBuildpack>, name: &LayerName) -> R<LayerRef<TestBuildpack, u32, u32>> {
+    ctx.cached_layer(name, CachedLayerDefinition {
+        build: true, launch: true,
+        invalid_metadata_action: &|old: &GenericMetadata| -> Result<(InvalidMetadataAction<V>, u32), TbError> {
+            Ok(match old.as_ref().and_then(|t| t.get("w")).and_then(toml::Value::as_integer) {
+                Some(w) => (InvalidMetadataAction::ReplaceMetadata(V { v: w + 10 }), 1),
+                None => (InvalidMetadataAction::DeleteLayer, 2),
+            })
+        },
+        restored_layer_action: &|m: &V, _: &Path| -> Result<(RestoredLayerAction, u32), TbError> {
+            Ok(if m.v == 1 || m.v > 10 { (RestoredLayerAction::KeepLayer, 3) } else { (RestoredLayerAction::DeleteLayer, 4) })
+        },
+    })
+}
+
+struct TraitLayer { strategy: ExistingLayerStrategy, migration: &'static str, prog: PathBuf, multi: bool, datadep: bool }
 impl TraitLayer {
     fn result(&self, v: i64) -> LayerResult<V> {
         if self.multi {
@@ -164,9 +186,28 @@ impl Layer for TraitLayer {
     type Metadata = V;
     fn types(&self) -> LayerTypes { LayerTypes { launch: true, build: true, cache: true } }
     fn create(&mut self, _: &BuildContext<TestBuildpack>, _: &Path) -> Result<LayerResult<V>, TbError> { Ok(self.result(3)) }
-    fn existing_layer_strategy(&mut self, _: &BuildContext<TestBuildpack>, _: &LayerData<V>) -> Result<ExistingLayerStrategy, TbError> { Ok(self.strategy) }
-    fn update(&mut self, _: &BuildContext<TestBuildpack>, _: &LayerData<V>) -> Result<LayerResult<V>, TbError> { Ok(self.result(4)) }
-    fn migrate_incompatible_metadata(&mut self, _: &BuildContext<TestBuildpack>, _: &GenericMetadata) -> Result<MetadataMigration<V>, TbError> {
+    /// `datadep` (`t-migrate`): the strategy depends on the `LayerData` read from disk (mirrored by `strategyByData`): a migrated
+    /// layer (v > 10) is kept; a current one (v = 1) is updated when the env read back from the layer directory sets FOO and kept
+    /// otherwise; any other value is recreated
+    fn existing_layer_strategy(&mut self, _: &BuildContext<TestBuildpack>, ld: &LayerData<V>) -> Result<ExistingLayerStrategy, TbError> {
+        if !self.datadep { return Ok(self.strategy); }
+        let v = ld.content_metadata.metadata.v;
+        let has_foo = ld.env.apply(Scope::Build, &libcnb::Env::new()).contains_key("FOO");
+        Ok(if v > 10 { ExistingLayerStrategy::Keep } else if v == 1 { if has_foo { ExistingLayerStrategy::Update } else { ExistingLayerStrategy::Keep } } else { ExistingLayerStrategy::Recreate })
+    }
+    /// `datadep`: the new metadata is derived from the old one (`updatedByData`)
+    fn update(&mut self, _: &BuildContext<TestBuildpack>, ld: &LayerData<V>) -> Result<LayerResult<V>, TbError> {
+        Ok(self.result(if self.datadep { ld.content_metadata.metadata.v + 3 } else { 4 }))
+    }
+    /// `datadep`: a real migration of the generic metadata read the second time (`migrateT`): `{ w }` -> `V { v: w + 10 }`,
+    /// nothing to migrate from -> RecreateLayer
+    fn migrate_incompatible_metadata(&mut self, _: &BuildContext<TestBuildpack>, old: &GenericMetadata) -> Result<MetadataMigration<V>, TbError> {
+        if self.datadep {
+            return Ok(match old.as_ref().and_then(|t| t.get("w")).and_then(toml::Value::as_integer) {
+                Some(w) => MetadataMigration::ReplaceMetadata(V { v: w + 10 }),
+                None => MetadataMigration::RecreateLayer,
+            });
+        }
         Ok(if self.migration == "replace" { MetadataMigration::ReplaceMetadata(V { v: 6 }) } else { MetadataMigration::RecreateLayer })
     }
 }
@@ -203,12 +244,14 @@ fn run(root: &Path, op: &str, state: &str) -> Result<String, String> {
         disarm();
         return Ok(show(r));
     }
-    let trait_layer = |strategy, migration| TraitLayer { strategy, migration, prog: prog.clone(), multi: op.ends_with("-multi") };
+    let trait_layer = |strategy, migration| TraitLayer { strategy, migration, prog: prog.clone(), multi: op.ends_with("-multi"), datadep: op == "t-migrate" };
     arm();
     let out = match op {
         "cached-keep" => showref(cached(&ctx, &name, "keep", "delete")),
         "cached-del" => showref(cached(&ctx, &name, "delete", "delete")),
         "cached-repl" => showref(cached(&ctx, &name, "keep", "replace")),
+        "cached-migrate" => showref(cached_migrate(&ctx, &name)),
+        "t-migrate" => show(ctx.handle_layer(name.clone(), trait_layer(ExistingLayerStrategy::Keep, "recreate")).map(|_| ())),
         "uncached" => match ctx.uncached_layer(&name, UncachedLayerDefinition { build: true, launch: false }) { Ok(_) => "ok".into(), Err(e) => err_kind(&e) },
         "t-recreate" => show(ctx.handle_layer(name.clone(), trait_layer(ExistingLayerStrategy::Recreate, "recreate")).map(|_| ())),
         "t-recreate-multi" => show(ctx.handle_layer(name.clone(), trait_layer(ExistingLayerStrategy::Recreate, "recreate")).map(|_| ())),
